@@ -4,9 +4,10 @@ from common import *
 import expr as X
 import pool
 import evalcheck
+import dictrep
 
 PROP = "C01"
-PROP_FILES = ["Properties/C01.v", "Check/EvalCheck.v"]
+PROP_FILES = ["Properties/C01.v", "Check/EvalCheck.v", "Check/DictCheck.v"]
 BIN = ["|", "&", "&~", "~~"]
 SUBS = ["(<)", "(<=)", "(>)", "(>=)", "(<>)", "(<>=)"]
 
@@ -161,4 +162,7 @@ def main(tier, seed, replay=None):
                     {"first_operand_histogram": dict(sorted(labels.items(), key=lambda kv: -kv[1])[:40]), "exhaustive": False})
     run.assumptions = ["github.com/arr-ai/frozen implements finite sets/maps for the Equal/Hash it is given",
                        "numbers are integers or half-integers below 2^53 (others are outside the model and skipped)"]
+    if not replay or json.load(open(replay)).get("case", {}).get("stream") == "dictrep":
+        only = [json.load(open(replay))["case"]["label"]] if replay else None
+        run.cov["dictionary_representation_histories"] = dictrep.run_stream(run, vh, random.Random(seed * 7919 + 13), tier, only=only)
     return run.finish(proof)
